@@ -38,7 +38,7 @@ def run(tier, seed, replay):
         j = json.load(open(rp)); j["cases"] = [[{"val": v["val"], "flag": v["flag"], "shape": v["shape"]} for v in it["event"]["votes"]] for it in j["violations"]]; json.dump(j, open(rp, "w"), indent=1)
     cov = {"states": mc_s + s2, "transitions": mc_t + t2, "traces_validated_against_impl": st["cases"], "samples": st["samples"][:2] or [{"note": "none"}],
            "commits_enumerated": total, "commits_materialised": st["cases"], "injected_tx_mutations_checked": st["mutations"], "handler_panics": st["panics"],
-           "explanation": "VoteExt.tla: what an extended commit's vote extensions contain (registrations only from both initial signatures by the validator's own key for validators without an address, valset signatures, attestations; commit votes only, in commit order) and when a commit is valid. VoteExt_MC enumerates all flag x shape combinations for three validators (15 shapes incl. non-JSON, truncated, short / mismatching / 65-byte signatures, duplicated and foreign snapshots); a seeded sample (half all-commit) is materialised as real ExtendedCommitInfo signed with the validators' ed25519 keys and run through the real VerifyVoteExtension, PrepareProposal, ProcessProposal (same state) and PreBlocker under recover; every injected list is mutated (add / drop / change / swap) and re-processed; arbitrary bytes as injected tx. TLC decides: no panics, injected lists = spec, Process(Prepare(valid commit)) = ACCEPT, every mutation rejected, state written = accepted data with signatures/attestations only in the sender's slot."}
+           "explanation": "VoteExt.tla: what an extended commit's vote extensions contain (registrations only from both initial signatures by the validator's own key for validators without an address, valset signatures, attestations; commit votes only, in commit order) and when a commit is valid. VoteExt_MC enumerates all flag x shape combinations for three validators (18 shapes incl. non-JSON, truncated, JSON objects with omitted keys, short / mismatching / 65-byte signatures, duplicated and foreign snapshots); a seeded sample (half all-commit) is materialised as real ExtendedCommitInfo signed with the validators' ed25519 keys and run through the real VerifyVoteExtension, PrepareProposal, ProcessProposal (same state) and PreBlocker under recover; every injected list is mutated (add / drop / change / swap) and re-processed; arbitrary bytes as injected tx. TLC decides: no panics, injected lists = spec, Process(Prepare(valid commit)) = ACCEPT, every mutation rejected, state written = accepted data with signatures/attestations only in the sender's slot."}
     vf.write_evidence(PID, tier, seed, "model_checking", cov, time.time() - t0, nnew,
                       ["handlers are called directly on the production keepers with a context carrying consensus params (VoteExtensionsEnableHeight 1) and the matching CometInfo last commit",
                        "attestation requests and snapshot slots for the previous height are installed directly in the bridge collections"])
